@@ -29,3 +29,5 @@ def run(ctx):
     H.r14_6_get_attribute_guarded(ctx, 'R15.6', transforms=True)
     H.r14_10_get_value_typestate(ctx, 'R15.7')
     H.r14_11_built_nodes(ctx, 'R15.8')
+    from . import round3 as R3
+    R3.r14_14_exact_key_match(ctx, 'R15.9')
